@@ -997,6 +997,7 @@ func (g *world) runC19(tier, dir string) (map[string]any, []crash) {
 
 type burstCfg struct {
 	W, L, N int
+	First   string `json:"first,omitempty"` // "stop" / "break": that call is the VERY FIRST call on the fresh queue (N = 0)
 }
 type burstRes struct {
 	Cfg          burstCfg `json:"cfg"`
@@ -1026,7 +1027,16 @@ func runBurstChild(in, out string) {
 		if trial%2 == 1 {
 			bo[0], bo[1] = bo[1], bo[0]
 		}
+		if ij, err := json.Marshal(map[string]any{"intent": c, "trial": trial}); err == nil {
+			f.Write(append(ij, '\n')) // what is being tried, should the process die in this trial
+			f.Sync()
+		}
 		q := workqueue.NewQueue(bo...)
+		if c.First == "stop" {
+			q.Stop() // no yield between NewQueue and the call: the dispatcher goroutine may not have run yet
+		} else if c.First == "break" {
+			q.Break()
+		}
 		starts := make([]atomic.Int64, c.N)
 		done := make(chan struct{})
 		go func() {
@@ -1034,7 +1044,9 @@ func runBurstChild(in, out string) {
 				i := i
 				q.Enqueue(func() error { starts[i].Add(1); <-never; return nil }, workqueue.WithName(strconv.Itoa(i)))
 			}
-			q.Stop() // immediately after the last accepted call, same goroutine
+			if c.First == "" {
+				q.Stop() // immediately after the last accepted call, same goroutine
+			}
 			close(done)
 		}()
 		select {
@@ -1092,6 +1104,14 @@ func (g *world) runBursts(self, dir string, tier string) (int, []burstFailure, [
 			Ls := []int{1, 2, n, 2 * n}
 			cfgs = append(cfgs, burstCfg{W: n + g.rng.Intn(3), L: Ls[g.rng.Intn(len(Ls))], N: n})
 		}
+		// Stop / Break as the very first call on a fresh queue: a later Enqueue is refused without panic, nothing runs
+		for k := 0; k < per; k++ {
+			first := "stop"
+			if k%2 == 1 {
+				first = "break"
+			}
+			cfgs = append(cfgs, burstCfg{W: 1 + k%3, L: 1 + k%2, N: 0, First: first})
+		}
 		in := fmt.Sprintf("%s/burst-%d.json", dir, bi)
 		out := fmt.Sprintf("%s/burst-%d.jsonl", dir, bi)
 		b, _ := json.Marshal(cfgs)
@@ -1112,8 +1132,13 @@ func (g *world) runBursts(self, dir string, tier string) (int, []burstFailure, [
 			hang = true
 		}
 		n := 0
+		var lastIntent string
 		if ob, err := os.ReadFile(out); err == nil {
 			for _, line := range strings.Split(string(ob), "\n") {
+				if strings.HasPrefix(line, "{\"intent\"") {
+					lastIntent = line
+					continue
+				}
 				var r burstRes
 				if line == "" || json.Unmarshal([]byte(line), &r) != nil {
 					continue
@@ -1152,7 +1177,7 @@ func (g *world) runBursts(self, dir string, tier string) (int, []burstFailure, [
 		os.Remove(out)
 		if werr != nil || hang {
 			se := errb.String()
-			c := crash{Script: fmt.Sprintf("burst batch %d (%d trials completed)", bi, n), Done: n, Kind: "panic", Stderr: se}
+			c := crash{Script: fmt.Sprintf("burst batch %d (%d trials completed); the process died in trial %s (first = Stop/Break as the very first call on the fresh queue, then one Enqueue; N = Enqueue calls before Stop)", bi, n, lastIntent), Done: n, Kind: "panic", Stderr: se}
 			if len(se) > 1500 {
 				c.Stderr = se[:1500]
 			}
